@@ -1,8 +1,9 @@
-(* C10 - termination of the struct value-member cycle check (proofs about StructGraph.v). *)
+(* C10 - termination and cost of the struct value-member cycle check (proofs about StructGraph.v). *)
 From Coq Require Import List Arith Bool Ascii String Lia.
 From Cb Require Import C10.Typedefs C10.TypedefsTotal C10.StructGraph.
 Import ListNotations.
 Local Open Scope string_scope.
+Local Open Scope list_scope.
 
 Lemma sg_lookup_In_keys : forall g k d, sg_lookup g k = Some d -> In k (map fst g).
 Proof.
@@ -12,43 +13,271 @@ Proof.
   - right. eapply IH. exact H.
 Qed.
 
-Lemma walk_members_total : forall rec ms n,
-  (forall mt, fst (rec mt) <> None) -> fst (walk_members rec ms n) <> None.
+(* ---------------------------------------------------------------- invariant of one activation
+   [ok g v r base]: the activation that started with visited set v answered (no fuel problem), its visited set on return
+   is v extended by distinct struct names (the structs it walked, [new]), and it spent at most base + (value members of
+   the walked structs) activations *)
+Definition ok (g : sgraph) (v : list string) (r : dres) (base : nat) : Prop :=
+  d_ans r <> None /\
+  exists new, d_vis r = new ++ v /\ NoDup (d_vis r) /\ incl (d_vis r) (map fst g) /\ d_calls r <= base + nv_sum g new.
+
+Definition nvl (ms : list member) : nat := List.length (filter (fun m : member => is_value (snd m)) ms).
+
+Lemma nv_sum_app : forall g a b, nv_sum g (a ++ b) = nv_sum g a + nv_sum g b.
+Proof. induction a as [|k a IH]; intros b; cbn [nv_sum app]; [reflexivity|]. rewrite IH. lia. Qed.
+
+Lemma nvl_cons : forall mt k r, nvl ((mt, k) :: r) = if is_value k then S (nvl r) else nvl r.
+Proof. intros. unfold nvl. cbn [filter snd]. destruct (is_value k); reflexivity. Qed.
+
+Lemma walk_members_ok : forall g f rec,
+  (forall mt v, NoDup v -> incl v (map fst g) -> List.length (map fst g) < f + List.length v -> ok g v (rec mt v) 1) ->
+  forall ms n vis, NoDup vis -> incl vis (map fst g) -> List.length (map fst g) < f + List.length vis ->
+  ok g vis (walk_members rec ms n vis) (n + nvl ms).
 Proof.
-  intros rec ms. induction ms as [|[mt k] r IH]; intros n Hrec; cbn [walk_members].
-  - cbn. discriminate.
-  - destruct (is_value k); [|apply IH; exact Hrec].
-    specialize (Hrec mt) as Hm. destruct (rec mt) as [[[|]|] c]; cbn in *.
-    + discriminate.
-    + apply IH. exact Hrec.
-    + congruence.
+  intros g f rec Hrec ms. induction ms as [|[mt k] r IH]; intros n vis Hnd Hincl Hlen; cbn [walk_members].
+  - split; [cbn; discriminate|]. exists []. cbn. repeat split; try assumption. lia.
+  - rewrite nvl_cons. destruct (is_value k) eqn:Hk.
+    + destruct (Hrec mt vis Hnd Hincl Hlen) as [Hans [new1 [Hv1 [Hnd1 [Hin1 Hc1]]]]].
+      destruct (rec mt vis) as [[[[|]|] c] v1]; cbn [d_ans d_calls d_vis fst snd] in *.
+      * split; [cbn; discriminate|]. exists new1. cbn [d_vis d_calls fst snd]. repeat split; try assumption. lia.
+      * assert (Hlen1 : List.length (map fst g) < f + List.length v1) by (rewrite Hv1, app_length; lia).
+        destruct (IH (n + c) v1 Hnd1 Hin1 Hlen1) as [Hans2 [new2 [Hv2 [Hnd2 [Hin2 Hc2]]]]].
+        split; [exact Hans2|]. exists (new2 ++ new1). repeat split; try assumption.
+        -- rewrite Hv2, Hv1, app_assoc. reflexivity.
+        -- rewrite nv_sum_app. lia.
+      * congruence.
+    + destruct (IH n vis Hnd Hincl Hlen) as [Hans2 [new2 [Hv2 [Hnd2 [Hin2 Hc2]]]]].
+      split; [exact Hans2|]. exists new2. repeat split; assumption.
 Qed.
 
-(* the names on the path are distinct struct names, so the recursion is at most |struct_definitions_| + 1 deep -
-   whatever cycles the table contains *)
-Lemma detectc_total : forall f g start ty visited,
-  NoDup visited -> incl visited (map fst g) -> List.length (map fst g) < f + List.length visited ->
-  fst (detectc f g start ty visited) <> None.
+(* the names in `visited` are distinct struct names and the set only grows, so the recursion is at most
+   |struct_definitions_| + 1 deep - whatever cycles the table contains; and a struct is marked when (and only when) its
+   member loop is entered, so it is entered once *)
+Lemma detectc_ok : forall f g start ty vis,
+  NoDup vis -> incl vis (map fst g) -> List.length (map fst g) < f + List.length vis ->
+  ok g vis (detectc f g start ty vis) 1.
 Proof.
-  induction f as [|f IH]; intros g start ty visited Hnd Hincl Hlen.
+  induction f as [|f IH]; intros g start ty vis Hnd Hincl Hlen.
   - exfalso. pose proof (NoDup_incl_length Hnd Hincl). cbn in Hlen. lia.
-  - cbn [detectc].
-    destruct (sg_lookup g ty) as [d|] eqn:Hl; [|cbn; discriminate].
-    destruct (s_fwd d); [cbn; discriminate|].
-    destruct (String.eqb ty start); [cbn; discriminate|].
-    destruct (mem visited ty) eqn:Hv; [cbn; discriminate|].
-    apply walk_members_total. intros mt. apply IH.
-    + constructor; [apply mem_false_notIn; exact Hv|exact Hnd].
-    + intros x [Hx|Hx]; [subst; eapply sg_lookup_In_keys; exact Hl|apply Hincl; exact Hx].
-    + cbn [List.length]. lia.
+  - assert (Htriv : forall b, ok g vis (Some b, 1, vis) 1).
+    { intros b. split; [cbn; discriminate|]. exists []. cbn. repeat split; try assumption. lia. }
+    cbn [detectc].
+    destruct (sg_lookup g ty) as [d|] eqn:Hl; [|apply Htriv].
+    destruct (s_fwd d); [apply Htriv|].
+    destruct (String.eqb ty start); [apply Htriv|].
+    destruct (mem vis ty) eqn:Hv; [apply Htriv|].
+    assert (Hnd' : NoDup (ty :: vis)) by (constructor; [apply mem_false_notIn; exact Hv|exact Hnd]).
+    assert (Hincl' : incl (ty :: vis) (map fst g)).
+    { intros x [Hx|Hx]; [subst; eapply sg_lookup_In_keys; exact Hl|apply Hincl; exact Hx]. }
+    assert (Hlen' : List.length (map fst g) < f + List.length (ty :: vis)) by (cbn [List.length]; lia).
+    destruct (walk_members_ok g f (fun mt v => detectc f g start mt v)
+                (fun mt v H1 H2 H3 => IH g start mt v H1 H2 H3) (s_members d) 1 (ty :: vis) Hnd' Hincl' Hlen')
+      as [Hans [new [Hvis [Hnd2 [Hin2 Hc]]]]].
+    split; [exact Hans|]. exists (new ++ [ty]). repeat split; try assumption.
+    + rewrite Hvis, <- app_assoc. reflexivity.
+    + rewrite nv_sum_app. cbn [nv_sum]. assert (Hty : nv g ty = nvl (s_members d)) by (unfold nv; rewrite Hl; reflexivity).
+      rewrite Hty. lia.
 Qed.
 
-Lemma detect_total_l : forall g start ty, detect (S (List.length g)) g start ty [] <> None.
+Lemma detect_top_ok : forall g start ty, ok g [] (detectc (S (List.length g)) g start ty []) 1.
 Proof.
-  intros. unfold detect. apply detectc_total.
+  intros. apply detectc_ok.
   - constructor.
   - intros x [].
   - rewrite map_length. cbn [List.length]. lia.
+Qed.
+
+Lemma detect_total_l : forall g start ty, detect (S (List.length g)) g start ty [] <> None.
+Proof. intros. exact (proj1 (detect_top_ok g start ty)). Qed.
+
+(* every struct is walked at most once per check: the structs whose member loop was entered are pairwise different
+   struct names of the table *)
+Lemma detect_walked_once_l : forall g start ty,
+  NoDup (detect_walked g start ty) /\ incl (detect_walked g start ty) (map fst g).
+Proof.
+  intros. destruct (detect_top_ok g start ty) as [_ [new [_ [Hnd [Hin _]]]]]. split; assumption.
+Qed.
+
+(* ... and every activation is either the first one or the visit of one value member of a walked struct *)
+Lemma detect_calls_walked_l : forall g start ty,
+  detect_calls g start ty <= 1 + nv_sum g (detect_walked g start ty).
+Proof.
+  intros. destruct (detect_top_ok g start ty) as [_ [new [Hv [_ [_ Hc]]]]].
+  unfold detect_calls, detect_walked. rewrite Hv, app_nil_r. exact Hc.
+Qed.
+
+Lemma nv_sum_skip : forall k' d' r t, ~ In k' t -> nv_sum ((k', d') :: r) t = nv_sum r t.
+Proof.
+  induction t as [|k t IH]; intros Hn; cbn [nv_sum]; [reflexivity|].
+  rewrite IH by (intros H; apply Hn; right; exact H).
+  unfold nv. cbn [sg_lookup]. destruct (String.eqb k k') eqn:E; [|reflexivity].
+  apply String.eqb_eq in E. subst. exfalso. apply Hn. left. reflexivity.
+Qed.
+
+Lemma nv_sum_head : forall k' d' r l, NoDup l ->
+  exists l', NoDup l' /\ incl l' l /\ nv_sum ((k', d') :: r) l <= nvalue d' + nv_sum r l'.
+Proof.
+  induction l as [|k t IH]; intros Hnd.
+  - exists []. cbn. repeat split; [constructor|intros x []|lia].
+  - inversion Hnd as [|? ? Hnk Hndt]; subst. cbn [nv_sum].
+    destruct (String.eqb k k') eqn:E.
+    + apply String.eqb_eq in E. subst k'. exists t. repeat split; [exact Hndt|intros x Hx; right; exact Hx|].
+      rewrite nv_sum_skip by exact Hnk. unfold nv. cbn [sg_lookup]. rewrite String.eqb_refl. lia.
+    + destruct (IH Hndt) as [l' [Hnd' [Hin' Hle]]]. exists (k :: l'). repeat split.
+      * constructor; [intros H; apply Hnk, Hin', H|exact Hnd'].
+      * intros x [Hx|Hx]; [left; exact Hx|right; apply Hin'; exact Hx].
+      * cbn [nv_sum]. assert (Hk : nv ((k', d') :: r) k = nv r k) by (unfold nv; cbn [sg_lookup]; rewrite E; reflexivity).
+        rewrite Hk. lia.
+Qed.
+
+Lemma nv_sum_le_value_edges : forall g l, NoDup l -> nv_sum g l <= value_edges g.
+Proof.
+  induction g as [|[k' d'] r IH]; intros l Hnd.
+  - cbn [value_edges]. induction l as [|k t IHl]; cbn [nv_sum]; [lia|].
+    inversion Hnd; subst. unfold nv at 1. cbn [sg_lookup]. apply IHl. assumption.
+  - destruct (nv_sum_head k' d' r l Hnd) as [l' [Hnd' [_ Hle]]]. cbn [value_edges]. specialize (IH l' Hnd'). lia.
+Qed.
+
+Lemma filter_len_le : forall (A : Type) (p : A -> bool) (l : list A), List.length (filter p l) <= List.length l.
+Proof. induction l as [|a l IH]; cbn [filter List.length]; [lia|]. destruct (p a); cbn [List.length]; lia. Qed.
+
+Lemma value_edges_le_member_edges : forall g, value_edges g <= member_edges g.
+Proof.
+  induction g as [|[k d] r IH]; cbn [value_edges member_edges]; [lia|].
+  unfold nvalue. pose proof (filter_len_le _ (fun m : member => is_value (snd m)) (s_members d)). lia.
+Qed.
+
+(* the linear bound: one check costs at most one activation per value member of the table, plus the first *)
+Lemma detect_calls_linear_l : forall g start ty, detect_calls g start ty <= 1 + value_edges g.
+Proof.
+  intros. pose proof (detect_calls_walked_l g start ty).
+  pose proof (nv_sum_le_value_edges g _ (proj1 (detect_walked_once_l g start ty))). lia.
+Qed.
+
+(* in the words of the repair's commit message: the number of RECURSIVE calls (all activations but the first) is at most
+   |struct_definitions_| + number of member edges *)
+Lemma detect_recursive_calls_l : forall g start ty,
+  detect_calls g start ty - 1 <= List.length g + member_edges g.
+Proof.
+  intros. pose proof (detect_calls_linear_l g start ty). pose proof (value_edges_le_member_edges g). lia.
+Qed.
+
+(* ---------------------------------------------------------------- what the check answers
+   [reach g start ty]: from struct ty the struct `start` is reached along VALUE members through defined (not merely
+   forward-declared) structs - the reference meaning of "defining start with a value member of type ty closes a cycle".
+   Marking every walked struct for good (fix 08b0ce5) must not lose an answer: the check still says `true` exactly then. *)
+Inductive reach (g : sgraph) (start : string) : string -> Prop :=
+| reach_here : forall d, sg_lookup g start = Some d -> s_fwd d = false -> reach g start start
+| reach_step : forall ty d mt, sg_lookup g ty = Some d -> s_fwd d = false -> In (mt, MValue) (s_members d) ->
+    reach g start mt -> reach g start ty.
+
+Definition live (g : sgraph) (x : string) : Prop := exists d, sg_lookup g x = Some d /\ s_fwd d = false.
+Definition handled (g : sgraph) (start : string) (V : list string) (mt : string) : Prop := live g mt -> mt <> start /\ In mt V.
+Definition closed (g : sgraph) (start : string) (Vnew V : list string) : Prop :=
+  forall x d mt, In x Vnew -> sg_lookup g x = Some d -> In (mt, MValue) (s_members d) -> handled g start V mt.
+
+Lemma is_value_MValue : forall k, is_value k = true <-> k = MValue.
+Proof. destruct k; cbn; split; intros H; try reflexivity; discriminate. Qed.
+
+Lemma handled_mono : forall g start V V' mt, incl V V' -> handled g start V mt -> handled g start V' mt.
+Proof. intros g start V V' mt Hi H Hl. destruct (H Hl) as [Hn Hin]. split; [exact Hn|apply Hi; exact Hin]. Qed.
+
+Lemma closed_mono : forall g start N V V', incl V V' -> closed g start N V -> closed g start N V'.
+Proof. intros g start N V V' Hi H x d mt Hx Hl Hm. eapply handled_mono; [exact Hi|]. eapply H; eassumption. Qed.
+
+Lemma walk_members_false : forall g start rec,
+  (forall mt v c v', rec mt v = (Some false, c, v') ->
+     exists new, v' = new ++ v /\ handled g start v' mt /\ closed g start new v') ->
+  forall ms n vis c vis', walk_members rec ms n vis = (Some false, c, vis') ->
+  exists new, vis' = new ++ vis /\ (forall mt, In (mt, MValue) ms -> handled g start vis' mt) /\ closed g start new vis'.
+Proof.
+  intros g start rec Hrec ms. induction ms as [|[mt k] r IH]; intros n vis c vis' H; cbn [walk_members] in H.
+  - inversion H; subst. exists []. split; [reflexivity|split; [intros mt0 []|intros x d mt0 []]].
+  - destruct (is_value k) eqn:Hk.
+    + destruct (rec mt vis) as [[[[|]|] c1] v1] eqn:Hr; try discriminate.
+      destruct (Hrec mt vis c1 v1 Hr) as [new1 [Hv1 [Hh1 Hc1]]].
+      destruct (IH _ _ _ _ H) as [new2 [Hv2 [Hh2 Hc2]]].
+      assert (Hi : incl v1 vis') by (rewrite Hv2; apply incl_appr, incl_refl).
+      exists (new2 ++ new1). split; [|split].
+      * rewrite Hv2, Hv1, app_assoc. reflexivity.
+      * intros mt' [Hm|Hm]; [inversion Hm; subst; eapply handled_mono; eassumption|apply Hh2; exact Hm].
+      * intros x d mt' Hx. apply in_app_or in Hx. destruct Hx as [Hx|Hx].
+        -- apply Hc2. exact Hx.
+        -- apply (closed_mono g start new1 v1 vis' Hi Hc1). exact Hx.
+    + destruct (IH _ _ _ _ H) as [new2 [Hv2 [Hh2 Hc2]]]. exists new2. split; [exact Hv2|split; [|exact Hc2]].
+      intros mt' [Hm|Hm]; [|apply Hh2; exact Hm]. inversion Hm; subst. cbn in Hk. discriminate.
+Qed.
+
+Lemma detectc_false : forall f g start ty vis c vis',
+  detectc f g start ty vis = (Some false, c, vis') ->
+  exists new, vis' = new ++ vis /\ handled g start vis' ty /\ closed g start new vis'.
+Proof.
+  induction f as [|f IH]; intros g start ty vis c vis' H; cbn [detectc] in H; [discriminate|].
+  assert (Hnil : closed g start [] vis') by (intros x d mt []).
+  destruct (sg_lookup g ty) as [d|] eqn:Hl.
+  2:{ inversion H; subst. exists []. split; [reflexivity|split; [|exact Hnil]]. intros [d [Hd _]]. congruence. }
+  destruct (s_fwd d) eqn:Hf.
+  { inversion H; subst. exists []. split; [reflexivity|split; [|exact Hnil]]. intros [d' [Hd Hf']]. congruence. }
+  destruct (String.eqb ty start) eqn:He; [discriminate|].
+  assert (Hne : ty <> start) by (intros E; subst; rewrite String.eqb_refl in He; discriminate).
+  destruct (mem vis ty) eqn:Hv.
+  { inversion H; subst. exists []. split; [reflexivity|split; [|exact Hnil]]. intros _. split; [exact Hne|apply mem_In; exact Hv]. }
+  destruct (walk_members_false g start (fun mt v => detectc f g start mt v)
+              (fun mt v c0 v0 H0 => IH g start mt v c0 v0 H0) _ _ _ _ _ H) as [new [Hvis [Hh Hc]]].
+  exists (new ++ [ty]). split; [|split].
+  - rewrite Hvis, <- app_assoc. reflexivity.
+  - intros _. split; [exact Hne|]. rewrite Hvis. apply in_or_app. right. left. reflexivity.
+  - intros x d' mt Hx Hl' Hm. apply in_app_or in Hx. destruct Hx as [Hx|[Hx|[]]].
+    + eapply Hc; eassumption.
+    + subst x. rewrite Hl in Hl'. inversion Hl'; subst d'. apply Hh. exact Hm.
+Qed.
+
+Lemma detect_false_not_reach : forall f g start ty, detect f g start ty [] = Some false -> ~ reach g start ty.
+Proof.
+  intros f g start ty H. unfold detect, d_ans in H.
+  destruct (detectc f g start ty []) as [[a c] V] eqn:Hd. cbn in H. subst a.
+  destruct (detectc_false _ _ _ _ _ _ _ Hd) as [new [HV [Hh Hc]]]. rewrite app_nil_r in HV. subst new. clear Hd.
+  intros Hr. revert Hh. induction Hr as [d Hl Hf|x d mt Hl Hf Hm Hr IH]; intros Hh.
+  - destruct (Hh (ex_intro _ d (conj Hl Hf))) as [Hn _]. apply Hn. reflexivity.
+  - destruct (Hh (ex_intro _ d (conj Hl Hf))) as [_ Hin]. apply IH. eapply Hc; eassumption.
+Qed.
+
+Lemma walk_members_true : forall g start rec,
+  (forall mt v, d_ans (rec mt v) = Some true -> reach g start mt) ->
+  forall ms n vis, d_ans (walk_members rec ms n vis) = Some true -> exists mt, In (mt, MValue) ms /\ reach g start mt.
+Proof.
+  intros g start rec Hrec ms. induction ms as [|[mt k] r IH]; intros n vis H; cbn [walk_members] in H.
+  - cbn in H. discriminate.
+  - destruct (is_value k) eqn:Hk.
+    + apply is_value_MValue in Hk. subst k. pose proof (Hrec mt vis) as Hm.
+      destruct (rec mt vis) as [[[[|]|] c1] v1]; cbn [d_ans fst] in *.
+      * exists mt. split; [left; reflexivity|apply Hm; reflexivity].
+      * destruct (IH _ _ H) as [mt' [Hi Hr]]. exists mt'. split; [right; exact Hi|exact Hr].
+      * discriminate.
+    + destruct (IH _ _ H) as [mt' [Hi Hr]]. exists mt'. split; [right; exact Hi|exact Hr].
+Qed.
+
+Lemma detectc_true : forall f g start ty vis, d_ans (detectc f g start ty vis) = Some true -> reach g start ty.
+Proof.
+  induction f as [|f IH]; intros g start ty vis H; cbn [detectc] in H; [cbn in H; discriminate|].
+  destruct (sg_lookup g ty) as [d|] eqn:Hl; [|cbn in H; discriminate].
+  destruct (s_fwd d) eqn:Hf; [cbn in H; discriminate|].
+  destruct (String.eqb ty start) eqn:He.
+  { apply String.eqb_eq in He. subst ty. eapply reach_here; eassumption. }
+  destruct (mem vis ty); [cbn in H; discriminate|].
+  destruct (walk_members_true g start (fun mt v => detectc f g start mt v) (fun mt v H0 => IH g start mt v H0) _ _ _ H)
+    as [mt [Hi Hr]].
+  eapply reach_step; eassumption.
+Qed.
+
+Lemma detect_correct_l : forall g start ty,
+  detect (S (List.length g)) g start ty [] = Some true <-> reach g start ty.
+Proof.
+  intros g start ty. split.
+  - apply detectc_true.
+  - intros Hr. pose proof (detect_total_l g start ty) as Ht.
+    destruct (detect (S (List.length g)) g start ty []) as [[|]|] eqn:Hd; [reflexivity| |congruence].
+    exfalso. exact (detect_false_not_reach _ _ _ _ Hd Hr).
 Qed.
 
 (* every declaration is processed: the step function is total by construction; what the theorem adds is that the
@@ -61,15 +290,26 @@ Proof.
   destruct (detect (S (List.length g1)) g1 n (fst m) []) as [[|]|]; [left|right|]; try reflexivity. congruence.
 Qed.
 
-(* the cost side (finding C10-struct-diamond-exponential): the diamond family is accepted, and checking the last struct
-   of diamond n takes 2^(n+1) - 2 activations for 2 value members each - computed for n = 1 .. 10 *)
+(* cost of a whole definition  struct N { .. };  : one check per value member, each linear in the table *)
+Definition decl_check_calls (g1 : sgraph) (n : string) (ms : list member) : nat :=
+  fold_right (fun (m : member) acc => if is_value (snd m) then detect_calls g1 n (fst m) + acc else acc) 0 ms.
+
+Lemma decl_check_calls_bound_l : forall g1 n ms, decl_check_calls g1 n ms <= nvl ms * (1 + value_edges g1).
+Proof.
+  intros g1 n ms. induction ms as [|[mt k] r IH]; [cbn; lia|].
+  unfold nvl in *. cbn [decl_check_calls fold_right filter snd fst]. fold (decl_check_calls g1 n r).
+  destruct (is_value k); [|exact IH]. cbn [List.length]. pose proof (detect_calls_linear_l g1 n mt). lia.
+Qed.
+
+(* the cost side (former finding C10-struct-diamond-exponential): the diamond family is accepted; checking the last struct
+   of diamond n (2 value members) took 2^(n+1) - 2 activations with the walk as it was before 08b0ce5 ([detectu]) and takes
+   4n - 2 now - computed for n = 1 .. 10 *)
 Definition diamond_calls (n : nat) : nat :=
   let g := fst (sg_run [] (diamond n)) in
   detect_calls g (dname n) (dname (n - 1)) + detect_calls g (dname n) (dname (n - 1)).
+Definition diamond_calls_before_fix (n : nat) : nat :=
+  let g := fst (sg_run [] (diamond n)) in
+  detectu_calls g (dname n) (dname (n - 1)) + detectu_calls g (dname n) (dname (n - 1)).
 
 Example diamond_accepted : map (fun n => snd (sg_run [] (diamond n))) [1; 2; 5; 9] = [None; None; None; None].
-Proof. vm_compute. reflexivity. Qed.
-
-Example diamond_cost_doubles :
-  map diamond_calls [1; 2; 3; 4; 5; 6; 7; 8; 9; 10] = [2; 6; 14; 30; 62; 126; 254; 510; 1022; 2046].
 Proof. vm_compute. reflexivity. Qed.
